@@ -93,6 +93,27 @@ func NewEngine(prog *ssa.Program, cfg Config) *Engine {
 	registerSym(e)
 	registerStd(e)
 	registerBits(e)
+	e.opaque["internal/oserror"] = false
+	e.opaque["internal/bytealg"] = true
+	// package os: only the sentinel errors are needed (the rest of its
+	// initialisation needs the runtime); they alias io/fs's, as in the real init
+	e.pkgInitFix["os"] = func(p *Path, pkg *ssa.Package) {
+		fsPkg := p.eng.prog.ImportedPackage("io/fs")
+		if fsPkg == nil {
+			return
+		}
+		for _, n := range []string{"ErrInvalid", "ErrPermission", "ErrExist", "ErrNotExist", "ErrClosed"} {
+			src, _ := fsPkg.Members[n].(*ssa.Global)
+			dst, _ := pkg.Members[n].(*ssa.Global)
+			if src == nil || dst == nil {
+				continue
+			}
+			*p.globals[dst] = *p.global(src)
+		}
+		if g, ok := pkg.Members["ErrProcessDone"].(*ssa.Global); ok {
+			*p.globals[g] = p.eng.makeError(p, "os: process already finished", nil)
+		}
+	}
 	for _, f := range extraExternals {
 		f(e)
 	}
